@@ -3,6 +3,14 @@
 import json, subprocess, os
 
 CHECKS = {
+ "C16": ("rtprops", "scenario-based property testing (proptest): generated shutdown scenarios over loopback with connection states pinned by handler signals and hook H4; per-request completion + timing-window oracle",
+         "Each scenario starts a real pavex server (1-3 workers), puts connections into chosen states (mid-handler via start signal, queued behind a thread-blocking handler via hook H4, idle keep-alive), calls shutdown(Graceful/Forced, incl. Duration::MAX and a too-short timeout), optionally a second shutdown from another handle, and checks: every in-budget request answered in full, neither shutdown nor handle.await resolves before in-budget handlers finish, resolution near the last completion (not at the timeout), Forced prompt, connect refused afterwards, nothing served while draining. One genuine defect found and fixed; both seeded defects caught after two strengthenings. Interleavings inside hyper/tokio are sampled.",
+         "Trusted: hook H4 (a counter), the raw TCP client, >=100 ms separation between generated durations and thresholds; slow resolutions within 10x slack are labelled inconclusive.",
+         "DESIGN.md §4 C16"),
+ "C20": ("cprops", "property-based testing (proptest): grammar + mutation generated guards x derived/near-miss hosts, independent validator and matcher vs the compiler's validator/pattern (hook H2) in a real matchit router; pairwise conflict relation",
+         "Guards from a grammar and single mutations, judged by an independent validator; accepted guards are matched against hosts by an independent matcher and by a real matchit router loaded with the compiler's pattern under the documented host normalisation; pairs: reported conflicts need a common host, identically shaped guards must conflict. One genuine validator defect found and fixed; both seeded defects caught. The host normalisation of the generated server is covered end to end by the E2E engine.",
+         "Trusted: hook H2 (a forwarding wrapper), the harness validator/matcher. Host case, non-ASCII parameter names and overlaps resolved by router specificity are classified only.",
+         "DESIGN.md §4 C20"),
  "C18": ("rtprops", "property-based testing (proptest): generated key->sources assignments x profile x directory form, one child process per case, precedence model",
          "Each case writes base.yml/<profile>.yml, sets PX_ variables in a cleared child environment and loads the configuration with the real ConfigLoader (derive-macro profile enum incl. custom names with digits/upper case); the loaded map must equal env ?? profile ?? base for every key and contain nothing else; no valid profile / missing required key must be errors. Both seeded defects caught within 9 cases.",
          "Trusted: the harness YAML writer and flattening; values are strings figment cannot re-type. A missing profile *file* and profile selection purely via PX_PROFILE=<other valid> are classified only.",
@@ -63,6 +71,8 @@ manifest = {
    "add_only": True,
  },
  "engines": [
+   {"name": "cprops", "path": "harness/cprops", "serves_properties": [p for p in props if p in CHECKS and CHECKS[p][0]=="cprops"],
+    "kind_free_text": "in-process proptest checks that link the compiler library (pavexc, feature verif_hooks)"},
    {"name": "rtprops", "path": "harness/rtprops", "serves_properties": [p for p in props if p in CHECKS and CHECKS[p][0]=="rtprops"],
     "kind_free_text": "in-process proptest checks against the real runtime/compiler library crates (path dependencies on /repo), fixed-seed TestRunner, shrunk failures saved as replay files"},
  ],
